@@ -92,7 +92,26 @@ def main():
         x, y = rng.randint(-300, 3000), rng.randint(-300, 3000)
         arith.append({"op": rng.choice(["sub", "sub", "add"]), "a": {"m": [rng.choice(["int", "float"]), str(x), "1"], "u": [[p1, s1, 1]]},
                       "b": {"m": [rng.choice(["int", "float"]), str(y), "1"], "u": [[p2, s2, 1]]}, "g": [s1, p1, s2, p2, x, y]})
-    r = impl("convsys_worker.py", {"systems": True, "cases": cases + cmps + arith})
+    # Decimal magnitudes on prefixed scales (either side), conversions and comparisons: the prefix factor may be a float, the result
+    # stays a Decimal and follows the affine definition
+    pdec = []
+    for _ in range(150 if quick else 1500):
+        s1, s2 = rng.choice(scales), rng.choice(scales)
+        p1, p2 = rng.choice([None] + pnames), rng.choice([None, None] + pnames)
+        if p1 is None and p2 is None: p1 = rng.choice(pnames)
+        f = Fraction(rng.randint(-10**7, 10**7), 10 ** rng.randint(0, 5)); m = ["dec", str(f.numerator), str(f.denominator)]
+        pdec.append({"op": "in_unit", "a": {"m": m, "u": [[p1, s1, 1]]}, "b": [[p2, s2, 1]], "g": [s1, p1, s2, p2]})
+    for _ in range(60 if quick else 600):
+        s1, s2 = rng.choice(scales), rng.choice(scales)
+        p1, p2 = rng.choice([None, "milli", "kilo", "micro", "deci"]), rng.choice([None, "milli", "kilo", "centi"])
+        x = Fraction(rng.randint(-200, 2000))
+        a1, b1 = ideal(s1, pv[p1] if p1 else 1, "kelvin", 1); kx = a1 * x + b1
+        delta = rng.choice([Fraction(-7), Fraction(3), Fraction(1, 4), Fraction(40)])
+        a2, b2 = ideal("kelvin", 1, s2, pv[p2] if p2 else 1); y = a2 * (kx + delta) + b2
+        y = Fraction(round(y * 10**6), 10**6)
+        pdec.append({"op": rng.choice(["lt", "gt", "le", "ge", "eq"]), "a": {"m": ["dec", str(x), "1"], "u": [[p1, s1, 1]]},
+                     "b": {"m": ["dec", str(y.numerator), str(y.denominator)], "u": [[p2, s2, 1]]}, "delta": str(delta)})
+    r = impl("convsys_worker.py", {"systems": True, "cases": cases + cmps + arith + pdec})
     res_a = r["results"][len(cases) + len(cmps):]
     # approximate equality across scales (Measurement machinery): true for the same temperature, false for clearly different ones
     approx = []
@@ -171,6 +190,25 @@ def main():
             d = Fraction(cs["delta"]); want = {"lt": d > 0, "le": d > 0, "gt": d < 0, "ge": d < 0, "eq": False}[cs["op"]]; d = float(d)
         if res.get("bool") != want:
             c.violation("compare:" + cs["op"], f"{cs['op']} is {res.get('bool', res.get('err'))} but the kelvin values say {want} ({d})", {"case": cs, "implementation": res})
+    for cs, res in zip(pdec, r["results"][len(cases) + len(cmps) + len(arith):]):
+        c.count(cs, nontrivial=True)
+        repl = {"case": {k: cs[k] for k in ("op", "a", "b")}, "implementation": {k: res.get(k) for k in ("m", "err", "same_unit", "bool")}}
+        if "err" in res:
+            c.violation(f"fails:{res.get('err')}", f"{cs['op']} on Decimal magnitudes of prefixed temperature scales raised {res['err']}", repl); continue
+        if cs["op"] == "in_unit":
+            s1, p1, s2, p2 = cs["g"]
+            m = frac(cs["a"]["m"]); A, B = ideal(s1, pv[p1] if p1 else Fraction(1), s2, pv[p2] if p2 else Fraction(1))
+            want = A * m + B; got = frac(res["m"])
+            b1_, b2_ = SCALES[s1][1], SCALES[s2][1]
+            scale = max(abs(A * m), abs(B), abs(want), (abs(b1_) + abs(b2_)) / (SCALES[s2][0] * (pv[p2] if p2 else 1)))
+            if not res.get("same_unit") or abs(got - want) > Fraction(1, 10**9) * scale:
+                c.violation(f"affine:{s1}->{s2}:prefixed", f"Decimal {float(m)} {p1 or ''}{s1} -> {p2 or ''}{s2}: got {float(got)}, exact affine definition gives {float(want)}", repl)
+            if res["m"][0] != "dec":
+                c.violation("decimal-lost", "Decimal magnitude became " + res["m"][0], repl)
+        else:
+            d = Fraction(cs["delta"]); want = {"lt": d > 0, "le": d > 0, "gt": d < 0, "ge": d < 0, "eq": False}[cs["op"]]
+            if res.get("bool") != want:
+                c.violation("compare:" + cs["op"], f"{cs['op']} is {res.get('bool')} but the kelvin values say {want} ({float(d)})", repl)
     for cs, res in zip(arith, res_a):
         c.count(cs, nontrivial=True)
         s1, p1, s2, p2, x, y = cs["g"]
